@@ -1334,6 +1334,10 @@ func (s *sharedEntryAttributes) populateChoiceCaseResolvers(ctx context.Context)
 			// Query the Index, stored in the treeContext for the per branch highes precedence
 			v := s.treeContext.GetTreeSchemaCacheClient().GetBranchesHighesPrecedence(ctx, append(s.Path(), elem), CacheUpdateFilterExcludeOwners(s.treeContext.GetOwners()))
 
+			// what the intended store holds for the branch before this transaction, the intents of the transaction included:
+			// that decides which case has been the active one so far
+			choiceResolver.SetOldValue(elem, s.treeContext.GetTreeSchemaCacheClient().GetBranchesHighesPrecedence(ctx, append(s.Path(), elem)))
+
 			child, childExists := s.childs.GetEntry(elem)
 			// set the value from the tree as well
 			if childExists {
